@@ -3753,6 +3753,7 @@ RG = "src/util/random_generator.rs"; RW = "src/util/rlwe.rs"
 FILES += [
     ("RngFns.lean", {"ns": "GenRng", "rng_mode": True, "imports": ["Heathcliff.Model.Word", "Heathcliff.Gen.Rng"], "table": [
         {"file": RG, "struct": "BlakeRNG"},
+        {"file": RG, "fn": "from_seed", "impl": "SeedableRng for BlakeRNG", "consts": {"BUFFER_SIZE": RG}, "model": "Rng.fromSeed"},
         {"file": RG, "fn": "refill_buffer", "impl": "BlakeRNG", "model": "Rng.refill"},
         {"file": RG, "fn": "next_u32", "impl": "RngCore for BlakeRNG", "consts": {"BUFFER_SIZE": RG}, "model": "Rng.nextU32"},
         {"file": RG, "fn": "next_u64", "impl": "RngCore for BlakeRNG", "consts": {"BUFFER_SIZE": RG}, "model": "Rng.nextU64"},
